@@ -16,7 +16,10 @@ import json
 import os
 import re
 import shutil
+import signal
 import sqlite3
+import subprocess
+import sys
 import tempfile
 
 import lbry.wallet  # noqa: F401  (import order)
@@ -91,13 +94,13 @@ class Die(Exception):
 
 
 class World:
-    def __init__(self, loop):
+    def __init__(self, loop, root=None):
         self.loop = loop
-        self.root = tempfile.mkdtemp(prefix='c18_')
+        self.root = root or tempfile.mkdtemp(prefix='c18_')
         self.blob_dir = os.path.join(self.root, 'blobfiles')
         self.src_dir = os.path.join(self.root, 'src')
-        os.mkdir(self.blob_dir)
-        os.mkdir(self.src_dir)
+        os.makedirs(self.blob_dir, exist_ok=True)
+        os.makedirs(self.src_dir, exist_ok=True)
         self.db_path = os.path.join(self.root, 'lbrynet.sqlite')
         self.conf = Config(data_dir=self.root, wallet_dir=self.root, download_dir=self.root,
                            config=os.path.join(self.root, 'settings.yml'))
@@ -226,10 +229,21 @@ class World:
             return 'invalid'
         return 'have' if blob.get_is_verified() else 'done'
 
-    async def crash_write(self, h, length, written, data):
+    async def crash_write(self, h, length, written, data, real_kill=False):
         blob, early = self._begin_download(h, length)
         if early:
             return early
+        if real_kill:
+            # child process only: the file is written by the real code, then the process is SIGKILLed at the
+            # moment blob_completed asks the storage to record it
+            def killer(*a, **k):
+                os.kill(os.getpid(), signal.SIGKILL)
+            self.storage.add_blobs = killer
+            writer = blob.get_blob_writer('10.0.0.1', 3333)
+            blob.set_length(length)
+            writer.write(data)
+            await self.drain()
+            raise RuntimeError('the process should be dead')
         if written == length:
             # the real write path; the database write never happens because the process dies first
             async def never(*a, **k):
@@ -247,8 +261,10 @@ class World:
         await self.kill()
         return 'done'
 
-    async def publish(self, spec, crash=None):
-        """spec: file_name, key, ivs, content, chunk.  crash = (k, j) or None"""
+    async def publish(self, spec, crash=None, real_kill=False):
+        """spec: file_name, key, ivs, content, chunk.  crash = (k, j) or None.  real_kill (child process only):
+        SIGKILL inside the k-th completion callback; how many of the earlier k-1 database writes made it is up to
+        the executor threads"""
         path = os.path.join(self.src_dir, spec['file_name'])
         with open(path, 'wb') as f:
             f.write(spec['content'])
@@ -279,6 +295,10 @@ class World:
 
             def callback(blob):
                 seen[0] += 1
+                if real_kill:
+                    if seen[0] >= k:
+                        os.kill(os.getpid(), signal.SIGKILL)
+                    return self.bm.blob_completed(blob)
                 if seen[0] <= j:
                     return self.bm.blob_completed(blob)
                 return None
@@ -367,8 +387,7 @@ def model_ops(case):
             m.update(h=hx(o['h']), len=o['len'], written=o['written'])
         elif k in ('publish', 'publish_crash'):
             spec = case['streams'][o['stream']]
-            hs, sd = expected_publish(spec['file_name'], bytes.fromhex(spec['key']),
-                                      [bytes.fromhex(i) for i in spec['ivs']], stream_content(spec), spec['chunk'])
+            hs, sd = expected_of(spec)
             m.update(hs=[[hx(h), ln] for h, ln in hs], sd=[hx(sd[0]), sd[1]])
             if k == 'publish_crash':
                 m.update(k=o['k'], j=o['j'])
@@ -376,8 +395,7 @@ def model_ops(case):
             m.update(hs=[hx(h) for h in resolve_names(case, o['hs'])], from_db=o['from_db'])
         elif k == 'stream_delete':
             spec = case['streams'][o['stream']]
-            hs, sd = expected_publish(spec['file_name'], bytes.fromhex(spec['key']),
-                                      [bytes.fromhex(i) for i in spec['ivs']], stream_content(spec), spec['chunk'])
+            hs, sd = expected_of(spec)
             m.update(hs=[hx(h) for h, _ in hs], sd=hx(sd[0]))
         elif k == 'ext_file':
             m.update(n=hx(resolve_name(case, o['n'])), size=o['size'])
@@ -391,19 +409,26 @@ def model_ops(case):
 
 def stream_content(spec):
     # deterministic content from a short seed so that cases stay small
-    seed = bytes.fromhex(spec['seed'])
-    out = b''
-    i = 0
-    while len(out) < spec['size']:
-        out += hashlib.sha512(seed + i.to_bytes(4, 'big')).digest()
-        i += 1
-    return out[:spec['size']]
+    return hashlib.shake_256(bytes.fromhex(spec['seed'])).digest(spec['size'])
+
+
+_EXPECTED = {}
+
+
+def expected_of(spec):
+    """memoised expected_publish for a stream spec (JSON form)"""
+    k = vlib.canon(spec)
+    if k not in _EXPECTED:
+        if len(_EXPECTED) > 64:
+            _EXPECTED.clear()
+        _EXPECTED[k] = expected_publish(spec['file_name'], bytes.fromhex(spec['key']),
+                                        [bytes.fromhex(i) for i in spec['ivs']], stream_content(spec), spec['chunk'])
+    return _EXPECTED[k]
 
 
 def stream_names(case, idx):
     spec = case['streams'][idx]
-    hs, sd = expected_publish(spec['file_name'], bytes.fromhex(spec['key']),
-                              [bytes.fromhex(i) for i in spec['ivs']], stream_content(spec), spec['chunk'])
+    hs, sd = expected_of(spec)
     return [h for h, _ in hs], sd[0]
 
 
@@ -419,62 +444,118 @@ def resolve_names(case, ns):
     return [resolve_name(case, n) for n in ns]
 
 
+async def run_ops(w, case, ops, on_restart, trace):
+    for o in ops:
+        k = o['op']
+        if k == 'restart':
+            before = w.observe()
+            await w.restart(o.get('mode', 'new'))
+            r = 'done'
+            on_restart(before, w.observe())
+        elif k == 'ext_file':
+            n = resolve_name(case, o['n'])
+            content = None
+            if o.get('true_content') and n in case['blobs']:
+                content = blob_data(case, n)
+            w.ext_file(n, o['size'], content)
+            r = 'done'
+        elif k == 'ext_dir':
+            w.ext_dir(resolve_name(case, o['n']))
+            r = 'done'
+        elif k == 'ext_remove':
+            w.ext_remove(resolve_name(case, o['n']))
+            r = 'done'
+        elif k == 'ext_db':
+            w.ext_db(resolve_name(case, o['h']), o['st'])
+            r = 'done'
+        elif w.dead:
+            r = 'dead'
+        elif k == 'complete':
+            r = await w.complete(o['h'], o['len'], blob_data(case, o['h']) if o['h'] in case['blobs'] else b'')
+        elif k == 'touch':
+            r = await w.touch(o['h'], o['len'])
+        elif k == 'crash_write':
+            r = await w.crash_write(o['h'], o['len'], o['written'],
+                                    blob_data(case, o['h']) if o['h'] in case['blobs'] else b'',
+                                    real_kill=bool(o.get('real_kill')))
+        elif k in ('publish', 'publish_crash'):
+            spec = dict(case['streams'][o['stream']])
+            spec['key'] = bytes.fromhex(spec['key'])
+            spec['ivs'] = [bytes.fromhex(i) for i in spec['ivs']]
+            spec['content'] = stream_content(spec)
+            r = await w.publish(spec, (o['k'], o.get('j', 0)) if k == 'publish_crash' else None,
+                                real_kill=bool(o.get('real_kill')))
+        elif k == 'delete':
+            r = await w.delete(resolve_names(case, o['hs']), o['from_db'])
+        elif k == 'stream_delete':
+            hs, sd = stream_names(case, o['stream'])
+            r = await w.stream_delete(hs, sd)
+        else:
+            raise ValueError(k)
+        trace.append({'r': r} if o.get('q') else {'r': r, 's': w.observe()})
+
+
 async def run_impl(case, loop, on_restart):
-    """-> list of {r, s} per op.  on_restart(before, mid_ops, after) feeds the monitor."""
+    """-> list of {r, s} per op.  on_restart(before, after) feeds the monitor."""
     w = World(loop)
     trace = []
     try:
         await w.boot()            # the daemon is running with an empty directory and table (the model's init)
         await w.bm.setup()
-        for o in case['ops']:
-            k = o['op']
-            if k == 'restart':
-                before = w.observe()
-                await w.restart(o.get('mode', 'new'))
-                r = 'done'
-                on_restart(before, w.observe())
-            elif k == 'ext_file':
-                n = resolve_name(case, o['n'])
-                content = None
-                if o.get('true_content') and n in case['blobs']:
-                    content = blob_data(case, n)
-                w.ext_file(n, o['size'], content)
-                r = 'done'
-            elif k == 'ext_dir':
-                w.ext_dir(resolve_name(case, o['n']))
-                r = 'done'
-            elif k == 'ext_remove':
-                w.ext_remove(resolve_name(case, o['n']))
-                r = 'done'
-            elif k == 'ext_db':
-                w.ext_db(resolve_name(case, o['h']), o['st'])
-                r = 'done'
-            elif w.dead:
-                r = 'dead'
-            elif k == 'complete':
-                r = await w.complete(o['h'], o['len'], blob_data(case, o['h']) if o['h'] in case['blobs'] else b'')
-            elif k == 'touch':
-                r = await w.touch(o['h'], o['len'])
-            elif k == 'crash_write':
-                r = await w.crash_write(o['h'], o['len'], o['written'],
-                                        blob_data(case, o['h']) if o['h'] in case['blobs'] else b'')
-            elif k in ('publish', 'publish_crash'):
-                spec = dict(case['streams'][o['stream']])
-                spec['key'] = bytes.fromhex(spec['key'])
-                spec['ivs'] = [bytes.fromhex(i) for i in spec['ivs']]
-                spec['content'] = stream_content(spec)
-                r = await w.publish(spec, (o['k'], o['j']) if k == 'publish_crash' else None)
-            elif k == 'delete':
-                r = await w.delete(resolve_names(case, o['hs']), o['from_db'])
-            elif k == 'stream_delete':
-                hs, sd = stream_names(case, o['stream'])
-                r = await w.stream_delete(hs, sd)
-            else:
-                raise ValueError(k)
-            trace.append({'r': r} if o.get('q') else {'r': r, 's': w.observe()})
+        await run_ops(w, case, case['ops'], on_restart, trace)
     finally:
         await w.close()
     return trace
+
+
+async def run_impl_real_kill(case, loop, on_restart):
+    """The ops up to and including the one marked real_kill run in a CHILD python process that is SIGKILLed by that
+    op (a genuine process death with the sqlite WAL open); the remaining ops run here on the same directories.
+    -> (trace of the prefix as reported by the child, observation right after the death, trace of the rest)"""
+    w = World(loop)
+    try:
+        cut = next(i for i, o in enumerate(case['ops']) if o.get('real_kill'))
+        case_path = os.path.join(w.root, 'case.json')
+        out_path = os.path.join(w.root, 'prefix_trace.json')
+        with open(case_path, 'w') as f:
+            json.dump(case, f)
+        p = subprocess.run([sys.executable, '-W', 'ignore', os.path.abspath(__file__), '--child', w.root, case_path,
+                            str(cut), out_path], stdout=subprocess.PIPE, stderr=subprocess.STDOUT, timeout=120)
+        if p.returncode != -signal.SIGKILL:
+            raise RuntimeError('child was expected to die by SIGKILL, got %r: %s' % (p.returncode, p.stdout[-2000:]))
+        prefix = json.load(open(out_path))
+        w.dead = True
+        after_death = w.observe()
+        rest = []
+        await run_ops(w, case, case['ops'][cut + 1:], on_restart, rest)
+    finally:
+        await w.close()
+    return prefix, after_death, rest
+
+
+def child_main(argv):
+    """runs inside the child: ops[0..cut]; writes the trace of ops[0..cut-1] before starting op cut, then dies"""
+    import logging
+    logging.disable(logging.CRITICAL)
+    root, case_path, cut, out_path = argv[0], argv[1], int(argv[2]), argv[3]
+    case = json.load(open(case_path))
+    loop = asyncio.new_event_loop()
+    loop.set_exception_handler(lambda l, c: None)
+    asyncio.set_event_loop(loop)
+
+    async def go():
+        w = World(loop, root=root)
+        await w.boot()
+        await w.bm.setup()
+        trace = []
+        await run_ops(w, case, case['ops'][:cut], lambda b, a: None, trace)
+        with open(out_path, 'w') as f:
+            json.dump(trace, f)
+            f.flush()
+            os.fsync(f.fileno())
+        await run_ops(w, case, [case['ops'][cut]], lambda b, a: None, trace)
+    loop.run_until_complete(go())
+    sys.exit(3)        # not reached when the kill happens
 
 
 def canon_model_trace(tr):
@@ -686,9 +767,10 @@ def hname(i):
 
 
 def big_case(n):
-    """more than 500 unrecorded files: the batch branch of ensure_completed_blobs_status"""
+    """more than 500 UNRECORDED files (nine in ten have no finished row): the batch branch of
+    ensure_completed_blobs_status"""
     ops = [{'op': 'ext_file', 'n': hname(i), 'size': i % 7, 'q': True} for i in range(n)]
-    ops += [{'op': 'ext_db', 'h': hname(i), 'st': 'finished', 'q': True} for i in range(0, n, 5)]
+    ops += [{'op': 'ext_db', 'h': hname(i), 'st': 'finished', 'q': True} for i in range(0, n, 10)]
     ops += [{'op': 'ext_db', 'h': hname(n + i), 'st': 'finished', 'q': True} for i in range(20)]
     ops += [{'op': 'restart', 'mode': 'new'}, {'op': 'restart', 'mode': 'new'}]
     return {'blobs': {}, 'streams': [], 'ops': ops, 'kind': 'batch>500'}
@@ -698,29 +780,35 @@ def big_case(n):
 # one case end to end
 # ------------------------------------------------------------------------------------------------
 
-def check_case(run, model, case, kind):
+class RestartMonitor:
+    """feeds monitor_restart with the observations around every restart of one case"""
+
+    def __init__(self, run, restart_indexes):
+        self.run = run
+        self.restarts = restart_indexes
+        self.n = 0
+        self.last_after, self.last_idx = None, -2
+        self.bad = []
+
+    def __call__(self, before, after):
+        i = self.restarts[self.n]
+        self.n += 1
+        prev = self.last_after if self.last_idx == i - 1 else None
+        b = monitor_restart(before, after, prev)
+        if b:
+            self.bad.append((i, b))
+        self.last_after, self.last_idx = after, i
+        self.run.count('restarts')
+        if prev is not None:
+            self.run.count('second-restarts')
+
+
+def with_loop(fn):
     loop = asyncio.new_event_loop()
     loop.set_exception_handler(lambda l, c: None)
     asyncio.set_event_loop(loop)
-    bad = []
-    last = {'after': None, 'idx': -2}
-    restarts = [i for i, o in enumerate(case['ops']) if o['op'] == 'restart']
-    state = {'n': 0}
-
-    def on_restart(before, after):
-        i = restarts[state['n']]
-        state['n'] += 1
-        prev = last['after'] if last['idx'] == i - 1 else None
-        b = monitor_restart(before, after, prev)
-        if b:
-            bad.append((i, b))
-        last['after'], last['idx'] = after, i
-        run.count('restarts')
-        if prev is not None:
-            run.count('second-restarts')
-
     try:
-        impl = loop.run_until_complete(run_impl(case, loop, on_restart))
+        return loop.run_until_complete(fn(loop))
     finally:
         try:
             loop.run_until_complete(loop.shutdown_default_executor())
@@ -728,15 +816,14 @@ def check_case(run, model, case, kind):
             pass
         loop.close()
         asyncio.set_event_loop(None)
-    mod = canon_model_trace(model.call('run', ops=model_ops(case)))
-    case = dict(case, kind=kind)
-    kinds = {o['op'] for o in case['ops']}
-    run.case(case, nontrivial=len(kinds) > 1)
+
+
+def report(run, case, mon, impl, mod):
     for o, st in zip(case['ops'], impl):
         run.count('op:' + o['op'] + ':' + st['r'])
     run.count('ops-per-case:%d' % (10 * (len(case['ops']) // 10)))
-    if bad:
-        i, what = bad[0]
+    if mon.bad:
+        i, what = mon.bad[0]
         run.violation(case, f'at op {i} (restart): {what}',
                       signature={'ops': case['ops'][:i + 1], 'streams': case['streams'], 'blobs': sorted(case['blobs'])})
         return
@@ -749,6 +836,87 @@ def check_case(run, model, case, kind):
         run.compare('C18.step', case, len(impl), len(mod))
     else:
         run.compare('C18.step', case, 0, 0)
+
+
+def check_case(run, model, case, kind):
+    if any(o.get('real_kill') for o in case['ops']):
+        return check_kill_case(run, model, case, kind)
+    mon = RestartMonitor(run, [i for i, o in enumerate(case['ops']) if o['op'] == 'restart'])
+    impl = with_loop(lambda loop: run_impl(case, loop, mon))
+    mod = canon_model_trace(model.call('run', ops=model_ops(case)))
+    case = dict(case, kind=kind)
+    run.case(case, nontrivial=len({o['op'] for o in case['ops']}) > 1)
+    report(run, case, mon, impl, mod)
+
+
+def check_kill_case(run, model, case, kind):
+    """a case whose op number `cut` is a genuine SIGKILL of a child process running the real code.  For a publish
+    the number j of database writes that were committed before the death is decided by the executor threads: the
+    implementation's state after the death must equal the model's for SOME j < k, and the rest of the history is
+    compared under that j."""
+    cut = next(i for i, o in enumerate(case['ops']) if o.get('real_kill'))
+    mon = RestartMonitor(run, [i for i, o in enumerate(case['ops']) if o['op'] == 'restart' and i > cut])
+    prefix, after_death, rest = with_loop(lambda loop: run_impl_real_kill(case, loop, mon))
+    op = case['ops'][cut]
+    js = list(range(0, op['k'])) if op['op'] == 'publish_crash' else [0]
+    chosen = None
+    for j in js:
+        c2 = dict(case, ops=[dict(o, j=j) if i == cut and o['op'] == 'publish_crash' else o
+                             for i, o in enumerate(case['ops'])])
+        mod = canon_model_trace(model.call('run', ops=model_ops(c2)))
+        if mod[cut] == {'r': 'done', 's': after_death}:
+            chosen = (j, mod)
+            break
+    case = dict(case, kind=kind)
+    run.case(case, nontrivial=True)
+    run.count('real-kill:' + op['op'])
+    if chosen is None:
+        run.compare('C18.real_kill', dict(case, first_difference_at_op=cut, op=op), {'r': 'done', 's': after_death},
+                    {'none of the model outcomes for j in': js, 'model for j=0': mod[cut]})
+        return
+    run.count('real-kill-recorded:j=%d,k=%s' % (chosen[0], op.get('k', '-')))
+    impl = prefix + [{'r': 'done', 's': after_death}] + rest
+    report(run, case, mon, impl, chosen[1])
+
+
+def gen_kill_case(rng):
+    nb = rng.randrange(3, 6)
+    blobs = {}
+    for _ in range(nb):
+        d = rng.randbytes(rng.choice(LENGTHS))
+        blobs[hashlib.sha384(d).hexdigest()] = d.hex()
+    pool = list(blobs)
+    victim, pool = pool[0], pool[1:]
+    case = {'blobs': blobs, 'streams': [make_stream(rng, 0)], 'ops': []}
+    ops = case['ops']
+
+    def some_ops(n):
+        for _ in range(n):
+            c = rng.random()
+            h = rng.choice(pool)
+            if c < 0.4:
+                ops.append({'op': 'complete', 'h': h, 'len': len(blobs[h]) // 2})
+            elif c < 0.55:
+                ops.append({'op': 'delete', 'hs': [h], 'from_db': rng.random() < 0.5})
+            elif c < 0.7:
+                ops.append({'op': 'ext_file', 'n': h, 'size': rng.choice([0, 3, len(blobs[h]) // 2])})
+            elif c < 0.85:
+                ops.append({'op': 'ext_remove', 'n': h})
+            else:
+                ops.append({'op': 'restart', 'mode': rng.choice(['new', 'stop_same'])})
+    ops.append({'op': 'publish', 'stream': 0})
+    some_ops(rng.randrange(0, 6))
+    if rng.random() < 0.5:
+        ln = len(blobs[victim]) // 2
+        ops.append({'op': 'crash_write', 'h': victim, 'len': ln, 'written': ln, 'real_kill': True})
+    else:
+        case['streams'].append(make_stream(rng, 1, nblobs=rng.choice([1, 2, 3, 4])))
+        n = len(case['streams'][1]['ivs']) - 1
+        ops.append({'op': 'publish_crash', 'stream': 1, 'k': rng.randrange(1, n + 2), 'j': 0, 'real_kill': True})
+    ops += [{'op': 'restart', 'mode': 'new'}, {'op': 'restart', 'mode': 'new'}]
+    some_ops(rng.randrange(0, 5))
+    ops += [{'op': 'restart', 'mode': 'new'}, {'op': 'restart', 'mode': 'stop_same'}]
+    return case
 
 
 NAME_ALPHABET = list('0123456789abcdef') * 4 + list(',gGAF\n \t-_.é')
@@ -831,14 +999,16 @@ def main(run):
         for a in combos:
             for b in combos[::2]:
                 check_case(run, model, prestate_case([(hname(0), *a), (hname(1), *b)]), 'prestate-2')
-    check_case(run, model, big_case(vlib.scaled(run.tier, 520, 1100)), 'batch')
+    check_case(run, model, big_case(vlib.scaled(run.tier, 570, 1700)), 'batch')
     # one stream with the real 2 MiB chunking
     real = {'blobs': {}, 'streams': [make_stream(rng, 0, real=True)],
             'ops': [{'op': 'publish', 'stream': 0}, {'op': 'restart', 'mode': 'new'},
                     {'op': 'delete', 'hs': [{'stream': 0, 'blob': 1}], 'from_db': False},
                     {'op': 'restart', 'mode': 'new'}, {'op': 'restart', 'mode': 'new'}]}
     check_case(run, model, real, 'real-chunk')
-    n_hist = vlib.scaled(run.tier, 110, 2500)
+    for _ in range(vlib.scaled(run.tier, 3, 60)):
+        check_case(run, model, gen_kill_case(rng), 'real-kill')
+    n_hist = vlib.scaled(run.tier, 90, 2500)
     for i in range(n_hist):
         nops = rng.choice([6, 12, 20, 30, 40])
         check_case(run, model, gen_case(rng, nops, with_dirs=(i % 8 == 7), inject=(i % 3 != 0)), 'generated')
@@ -861,3 +1031,7 @@ def replay(run, case):
         case = {k: v for k, v in case.items() if k not in ('first_difference_at_op', 'op')}
         check_case(run, model, case, 'replay')
     model.close()
+
+
+if __name__ == '__main__' and len(sys.argv) > 1 and sys.argv[1] == '--child':
+    child_main(sys.argv[2:])
